@@ -1,0 +1,84 @@
+//go:build verif
+
+package pogreb
+
+// Contracts for the lookup path: index.get and the function literals DB.Get/GetAppend/Has hand to it
+// (GoVC, see /verif/DESIGN.md). Comment-only file.
+
+// The database and the key a lookup is about: arbitrary but fixed (every proof below holds for all values of them);
+// a function literal says in its `captured` clause that its captured db and key are these.
+//@ spec func theDB() *DB
+//@ spec func theKey() []byte
+// the buffer a GetAppend call appends to (the only memory of the caller a lookup may write)
+//@ spec func theBuf() []byte
+
+// the record designated by sl has exactly the key `key`
+//@ spec func keyOfSlotIs(dl *datalog, sl slot, key []byte) bool = len(key) == int(sl.keySize) && sameBytes(contents(key), off(key), fData[fidOf[dl.segments[sl.segmentID].file.File]], int(sl.offset)+6, len(key))
+
+// what index.get expects of its callback: called on a slot that designates a record of the log, it answers
+// truthfully whether that record's key is the key sought, and changes nothing
+//@ func spec_matchKeyRO(sl slot) (match bool, err error) [C01,C16]
+//@   flag funcspec
+//@   requires inv: theDB() != nil && theDB().datalog != nil && theDB().metrics != nil && dlInv(theDB().datalog) && slotInSeg(theDB().datalog, sl)
+//@   ensures [C01,C16] truthful: err == nil ==> (match <==> keyOfSlotIs(theDB().datalog, sl, theKey()))
+//@   ensures err: err != nil ==> isIOErr(err)
+//@   modifies theBuf()[*]
+
+//@ func (db *DB) Has$1(sl slot) (match bool, err error) [C01,C16]
+//@   implements self spec_matchKeyRO
+//@   captured which: db == theDB() && key == theKey()
+
+// index.get walks the whole bucket chain of the hash: it stops early only at a slot its callback matched (or on an error)
+//@ func (idx *index) get(hash uint32, matchKey matchKeyFunc) (err error) [C01,C16]
+//@   implements matchKey spec_matchKeyRO
+//@   requires inv: theDB() != nil && idx == theDB().index && dbFull(theDB()) && idxInLog(theDB())
+//@   ensures err: err != nil ==> isIOErr(err) || err == io.EOF
+//@   at return: assert [C01] miss-only-at-chain-end: err == nil ==> it.off == 0 || keyOfSlotIs(theDB().datalog, sl, theKey())
+//@   at call matchKey@1: cases which-file: b.file == idx.main || b.file == idx.overflow
+//@   at call matchKey@1: hint slot-on-disk: slotEncoded(fData[fidOf[b.file.File]], int(b.offset)+16*i, sl) && bucketAt(b.offset, b.file.size) && sl.offset != 0
+//@   at call matchKey@1: hint slot-position: slotPos(b.offset + 16*int64(i), b.file.size)
+//@   at call matchKey@1: hint slot-in-log: slotInSegAt(theDB().datalog, fData[fidOf[b.file.File]], b.offset + 16*int64(i))
+//@   modifies theBuf()[*]
+//@   loop 1:
+//@     invariant idx == old(idx) && hash == old(hash) && it != nil && fresh(it) && it.overflow == idx.overflow
+//@     invariant it.off == 0 || (it.f == idx.main && bucketAt(it.off, idx.main.size)) || (it.f == idx.overflow && bucketAt(it.off, idx.overflow.size))
+//@     modifies it.off, it.f, theBuf()[*]
+//@   loop 2:
+//@     invariant 0 <= i && i <= 31 && idx == old(idx) && hash == old(hash)
+//@     modifies theBuf()[*]
+
+//@ func (db *DB) Get$1(sl slot) (match bool, err error) [C01,C14,C16]
+//@   implements self spec_matchKeyRO
+//@   captured which: db == theDB() && key == theKey()
+// the value handed back is a fresh copy (or untouched): never file-system memory
+//@   captured-post [C14] value-is-a-copy: retValue == old(retValue) || fresh(retValue)
+
+//@ func (db *DB) GetAppend$1(sl slot) (match bool, err error) [C01,C14,C16]
+//@   implements self spec_matchKeyRO
+//@   captured which: db == theDB() && key == theKey() && buf == theBuf() && (arr(buf) == 0 || arr(buf) != arr(key))
+// the value handed back is the caller's buffer extended in place, or a fresh array: never file-system memory
+//@   captured-post [C14] value-is-callers-or-fresh: retValue == old(retValue) || fresh(retValue) || (arr(retValue) == arr(buf) && arr(buf) != 0) || (len(retValue) == 0 && arr(retValue) == 0)
+
+//@ func (db *DB) Has(key []byte) (found bool, err error) [C01,C16]
+//@   requires inv: db == theDB() && key == theKey() && dbFull(db) && idxInLog(db)
+//@   requires unlocked: lockSt[fieldaddr(db, mu)] == 0
+//@   ensures unlocked: lockSt[fieldaddr(db, mu)] == 0
+//@   ensures err: err != nil ==> isIOErr(err) || err == io.EOF
+//@   modifies lockSt, theBuf()[*]
+
+//@ func (db *DB) Get(key []byte) (value []byte, err error) [C01,C14,C16]
+//@   requires inv: db == theDB() && key == theKey() && dbFull(db) && idxInLog(db)
+//@   requires unlocked: lockSt[fieldaddr(db, mu)] == 0
+//@   ensures [C14] value-is-callers: len(value) == 0 && arr(value) == 0 || fresh(value)
+//@   ensures unlocked: lockSt[fieldaddr(db, mu)] == 0
+//@   ensures err: err != nil ==> isIOErr(err) || err == io.EOF
+//@   modifies lockSt, theBuf()[*]
+
+//@ func (db *DB) GetAppend(key []byte, buf []byte) (value []byte, err error) [C01,C14,C16]
+//@   requires inv: db == theDB() && key == theKey() && buf == theBuf() && dbFull(db) && idxInLog(db)
+//@   requires noalias: arr(buf) == 0 || arr(buf) != arr(key)
+//@   requires unlocked: lockSt[fieldaddr(db, mu)] == 0
+//@   ensures [C14] value-is-callers: len(value) == 0 && arr(value) == 0 || fresh(value) || (arr(value) == arr(buf) && arr(buf) != 0)
+//@   ensures unlocked: lockSt[fieldaddr(db, mu)] == 0
+//@   ensures err: err != nil ==> isIOErr(err) || err == io.EOF
+//@   modifies lockSt, buf[*]
